@@ -84,6 +84,8 @@ let builtin_of_name (nm : string) : TreeM.tbuiltin =
   else if starts_with "drop_below<" nm then TreeM.BDropBelow (nat_of_int (num nm))
   else failwith ("unknown planted builtin " ^ nm)
 
+let block_counter = ref 0
+
 let rec tree_of (e : sexp) : TreeM.tree =
   match e with
   | Lst (Atom "CAT" :: l) -> TreeM.TCat (List.map tree_of l)
@@ -93,7 +95,7 @@ let rec tree_of (e : sexp) : TreeM.tree =
   | Lst [Atom "SUBX"; Atom k; c] -> TreeM.TSubx (nat_of_int (int_of_string k), tree_of c)
   | Lst [Atom "IFELSE"; c; a; b] -> TreeM.TIfElse (tree_of c, tree_of a, tree_of b)
   | Lst [Atom "SCOPE"; c] -> TreeM.TScope (tree_of c)
-  | Lst [Atom "BLOCK"; c] -> TreeM.TBlock (tree_of c)
+  | Lst [Atom "BLOCK"; c] -> let id = !block_counter in incr block_counter; TreeM.TBlock (n_of_int id, tree_of c)
   | Lst [Atom "BIND"; Atom n] -> TreeM.TBind (bytes_of_xhex n)
   | Lst [Atom "READ"; Atom n] -> TreeM.TRead (bytes_of_xhex n)
   | Lst [Atom "NOP"] -> TreeM.TNop
@@ -128,7 +130,14 @@ let show_events (evs : EngineM.event list) : string =
       | EngineM.EvSoft WordsM.SErr -> "E"
       | EngineM.EvSoft WordsM.SWarn -> "W") evs)
 
-let run () =
+let show_devs (evs : DenM.dev list) : string =
+  String.concat " " (List.map (fun e ->
+      match e with
+      | DenM.DOut (s, _) -> "R[" ^ show_stack s ^ "]"
+      | DenM.DSoft WordsM.SErr -> "E"
+      | DenM.DSoft WordsM.SWarn -> "W") evs)
+
+let run ?(spec = false) () =
   let hdr = List.map int_of_string (List.filter (fun s -> s <> "") (String.split_on_char ' ' (input_line stdin))) in
   match hdr with
   | [a; b; c; d; ra; rb; rs; fuel; limit] ->
@@ -146,7 +155,15 @@ let run () =
          let line = input_line stdin in
          let out =
            (try
+              block_counter := 0;
               let t = tree_of (parse line) in
+              if spec then
+                (match DenM.den p t fuel t [] [] with
+                 | DenM.DFuel -> "FUEL "
+                 | DenM.DStuck -> "STUCK "
+                 | DenM.DOk (evs, false) -> "DONE " ^ show_devs evs
+                 | DenM.DOk (evs, true) -> "ABORT " ^ show_devs evs)
+              else
               match BuildM.build_program tc t with
               | BuildM.BErr BuildM.BUnbound -> "BUILDERR unbound"
               | BuildM.BErr BuildM.BRebound -> "BUILDERR rebound"
